@@ -313,20 +313,66 @@ def handle : Handler := fun s =>
         [(⟨sc, lg, featTags, 0⟩, if i == 0 then full else short)] ++
         (if featTags.length > 1 then featTags.map fun f => (⟨sc, lg, [f], 0⟩, short) else []) ++
         (if hasAlt then [(⟨sc, lg, featTags, 1⟩, short), (⟨sc, lg, featTags, 2⟩, short)] else [])
+    -- a language for which the source registers nothing in a table has no LangSys record there
+    -- (fea-rs drops empty features) and a client falls back to the script default: outside the claim
+    let regG (c : Combo) : Bool := c.lang == "dflt" || Src.registersAny p false c.script c.lang
+    let regP (c : Combo) : Bool := c.lang == "dflt" || Src.registersAny p true c.script c.lang
+    let skipped := combos.filter fun (c, _) => !regG c
+    let glyphsOnly := combos.any fun (c, _) => regG c && !regP c
+    let combos := combos.filter fun (c, _) => regG c
+    let view (c : Combo) (r : List PGlyph) : List PGlyph := if regP c then r else r.map fun (g, _) => (g, Value.zero)
     let nStrings := combos.foldl (fun n c => n + c.2.length) 0
-    let fReal : Combo → List Glyph → List PGlyph := fun c s => shape t c.script c.lang c.feats c.alt s
-    let fSrc : Combo → List Glyph → List PGlyph := fun c s => interp p c.script c.lang c.feats c.alt s
+    let fReal : Combo → List Glyph → List PGlyph := fun c s => view c (shape t c.script c.lang c.feats c.alt s)
+    let fSrc : Combo → List Glyph → List PGlyph := fun c s => view c (interp p c.script c.lang c.feats c.alt s)
     let diff := firstDiffAll fReal fSrc combos
     let oracle := diff.isNone
+    -- the model of the compiler against the real compiler: behaviour, and (advisory) structure
+    let tm := compile p
+    let fModel : Combo → List Glyph → List PGlyph := fun c s => view c (shape tm c.script c.lang c.feats c.alt s)
+    let mdiff := firstDiffAll fReal fModel combos
+    let corr := mdiff.isNone
+    let stags :=
+      (if tm.gsub.lookups.length == t.gsub.lookups.length && tm.gpos.lookups.length == t.gpos.lookups.length
+        then [] else ["struct-lookup-count"]) ++
+      (if tm.gsub.lookups.map (fun l => (l.ty, l.flag, l.markFilteringSet)) == t.gsub.lookups.map (fun l => (l.ty, l.flag, l.markFilteringSet))
+          && tm.gpos.lookups.map (fun l => (l.ty, l.flag, l.markFilteringSet)) == t.gpos.lookups.map (fun l => (l.ty, l.flag, l.markFilteringSet))
+        then [] else ["struct-lookup-headers"]) ++
+      (if tm.gsub.features == t.gsub.features && tm.gpos.features == t.gpos.features then [] else ["struct-features"]) ++
+      (if tm.gsub.scripts == t.gsub.scripts && tm.gpos.scripts == t.gpos.scripts then [] else ["struct-scripts"]) ++
+      (if tm.gdef == t.gdef then [] else ["struct-gdef"]) ++
+      (if tm.gsub.lookups == t.gsub.lookups && tm.gpos.lookups == t.gpos.lookups then ["struct-lookups-identical"] else ["struct-subtables"])
     let changed := combos.any fun (c, ss) => ss.any fun s => fSrc c s != s.map (·, Value.zero)
+    let mdetail := match mdiff with
+      | none => ""
+      | some (c, str) =>
+        s!" MODEL-VS-REAL script={c.script} lang={c.lang} feats={c.feats} alt={c.alt} string=[{showGlyphs names str}] model-tables=[{showP names (fModel c str)}] real-tables=[{showP names (fReal c str)}]"
     let detail := match diff with
       | none => ""
       | some (c, str) =>
         let fea := (((s.field1? "fea").bind Sexp.asString?).getD "").replace "\n" " ⏎ "
         s!"script={c.script} lang={c.lang} feats={c.feats} alt={c.alt} string=[{showGlyphs names str}] source-semantics=[{showP names (fSrc c str)}] compiled-tables=[{showP names (fReal c str)}] fea={fea}"
-    some { corr := none, oracle := some oracle, nontrivial := changed && rules.length ≥ 2,
-           cls := if oracle then "" else "shape-differs-from-source-semantics",
-           tags := tags ++ [s!"strings{nStrings / 1000}k"], detail := detail }
+    -- the modelled subset, and attribution of a failure to one of the known defects of the anonymous
+    -- lookups: the failure is theirs iff the model with that defect repaired agrees with the source
+    let wf := Wf.violations p
+    let fixedAgrees (fx : Cmp.Fixes) : Bool :=
+      let tf := compileWith fx p
+      (firstDiffAll (fun c s => view c (shape tf c.script c.lang c.feats c.alt s)) fSrc combos).isNone
+    let attribution : String :=
+      if oracle then ""
+      else if !corr then "shape-differs-from-source-semantics"
+      else if fixedAgrees { anonSingle := true } then "anon-single-clobber"
+      else if fixedAgrees { anonLig := true } then "anon-lig-split"
+      else if fixedAgrees { anonLigPrefix := true } then "anon-lig-pooled-longer"
+      else if fixedAgrees { anonSingle := true, anonLig := true, anonLigPrefix := true } then "anon-several-defects"
+      else "shape-differs-from-source-semantics"
+    let wtags := (if wf.isEmpty then ["in-subset"] else wf.map ("outside-" ++ ·)) ++
+      (if skipped.isEmpty then [] else ["lang-unregistered-skipped"]) ++ (if glyphsOnly then ["lang-unregistered-gpos"] else [])
+    let detail := if !corr && detail.isEmpty then
+        mdetail ++ " fea=" ++ ((((s.field1? "fea").bind Sexp.asString?).getD "").replace "\n" " ⏎ ")
+      else detail ++ mdetail
+    some { corr := some corr, oracle := some oracle, nontrivial := changed && rules.length ≥ 2,
+           cls := if !oracle then attribution else if !corr then "model-differs-from-real" else "",
+           tags := tags ++ wtags ++ stags ++ [s!"strings{nStrings / 1000}k"], detail := detail }
   r.getD (badInput "c11: cannot parse case")
 
 end Fontc.Driver.C11
